@@ -126,7 +126,8 @@ func (f MultipartForm) Do(w http.ResponseWriter, r *http.Request, exec graphql.G
 		delete(uploadsMap, key)
 
 		var upload graphql.Upload
-		if r.ContentLength < f.maxMemory() {
+		// an unknown length (chunked transfer encoding) does not fit any memory budget
+		if r.ContentLength >= 0 && r.ContentLength < f.maxMemory() {
 			fileBytes, err := io.ReadAll(part)
 			if err != nil {
 				w.WriteHeader(http.StatusUnprocessableEntity)
